@@ -3392,6 +3392,179 @@ def run_fresh_names(ctx, ig, lines, meta, n):
         STD_QUEUE.append((text, pairs, rep, ig))
 
 
+# ------------------------------------------------------------------------------------------
+# round 6
+# (1) ONE parser object reads 2-3 scripts in sequence (get_script resets the parser): different / absent set-logic, numerals
+#     in every script.  Each result must be what a FRESH parser returns for that script alone (same commands, same terms with
+#     the same sorts) and what the generator intends (object identity with the formula it builds in the parser's environment;
+#     the Lean evaluator and the Lean standard reader on the text through the usual queues).
+REUSE_LOGICS = [("(set-logic QF_LRA)", True), ("(set-logic LRA)", True), ("(set-logic QF_RDL)", True),
+                ("(set-logic QF_LIA)", False), ("(set-logic QF_UFLIRA)", False), ("(set-logic QF_IDL)", False),
+                ("", False), ("", False)]
+
+
+def reuse_script(rng, j):
+    """-> (text, [(command index, build(m))]): script number `j` of a sequence (its symbols are named …_j)"""
+    from pysmt.typing import INT, REAL
+    header, reals = rng.choice(REUSE_LOGICS)
+    parts = [header] if header else []
+    want = []
+    ty, tn = (REAL, "Real") if reals else (INT, "Int")
+    num = (lambda m, n: m.Real(n)) if reals else (lambda m, n: m.Int(n))
+    x = "x_%d" % j
+    for _ in range(rng.randint(1, 3)):
+        k = rng.randrange(4)
+        a, b = rng.randint(0, 9), rng.randint(0, 9)
+        if k == 0:
+            parts.append("(assert (< %d %d))" % (a, b))
+            want.append((len(parts) - 1, (lambda a, b: lambda m: m.LT(num(m, a), num(m, b)))(a, b)))
+        elif k == 1:
+            if not any(p.startswith("(declare-fun %s " % x) for p in parts):
+                parts.append("(declare-fun %s () %s)" % (x, tn))
+            parts.append("(assert (= %s %d))" % (x, a))
+            want.append((len(parts) - 1, (lambda a: lambda m: m.Equals(m.Symbol(x, ty), num(m, a)))(a)))
+        elif k == 2:
+            nm = "c%d_%d" % (len(parts), j)
+            parts.append("(define-fun %s () %s %d)" % (nm, tn, a))
+            parts.append("(assert (<= %s %d))" % (nm, b))
+            want.append((len(parts) - 1, (lambda a, b: lambda m: m.LE(num(m, a), num(m, b)))(a, b)))
+        else:
+            if not any(p.startswith("(declare-fun %s " % x) for p in parts):
+                parts.append("(declare-fun %s () %s)" % (x, tn))
+            parts.append("(assert (> (+ %s %d) %d.0))" % (x, a, b) if reals else "(assert (> (+ %s %d) %d))" % (x, a, b))
+            want.append((len(parts) - 1, (lambda a, b: lambda m: m.GT(m.Plus(m.Symbol(x, ty), num(m, a)), num(m, b)))(a, b)))
+    return "".join(parts), want
+
+
+def _reuse_read(parser, text):
+    try:
+        with warnings.catch_warnings():
+            warnings.simplefilter("ignore")
+            return ("ok", parser.get_script(io.StringIO(text)))
+    except RecursionError:
+        raise
+    except Exception as e:
+        return ("err", type(e).__name__, str(e)[:200])
+
+
+def _reuse_answer(res):
+    if res[0] == "err":
+        return "err " + res[1]
+    try:
+        return enc_script(res[1])
+    except wire.OutOfFragment:
+        return "out-of-fragment"
+
+
+def _reuse_compare(texts):
+    """-> [(index, answer of the reused parser, answer of a fresh parser, result of the reused parser, its environment)]"""
+    env = Environment()
+    shared = SmtLibParser(env)
+    out = []
+    for i, t in enumerate(texts):
+        r = _reuse_read(shared, t)
+        f = _reuse_read(SmtLibParser(Environment()), t)
+        out.append((i, _reuse_answer(r), _reuse_answer(f), r, env))
+    return out
+
+
+def run_parser_reuse(ctx, ig, lines, meta, n):
+    for i in range(n):
+        k = ctx.rng.choice([2, 2, 3])
+        scripts = [reuse_script(ctx.rng, j) for j in range(k)]
+        texts = [t for t, _ in scripts]
+        ctx.case(("reuse",) + tuple(texts))
+        ctx.count("parser_reuse_sequences")
+        for (j, a_shared, a_fresh, res, env), (text, want) in zip(_reuse_compare(texts), scripts):
+            rep = {"text": text, "stream": "parser-reuse", "scripts": texts, "index": j, "tags": ["parser-reuse"], "may_reject": []}
+            if a_shared != a_fresh:
+                ctx.report_s({"oracle": "fresh-parser", "stream": "parser-reuse",
+                              "kind": "error" if a_shared.startswith("err") else "different"},
+                             "script %d of a sequence read by ONE parser object is not read as a fresh parser reads it: %s / fresh %s [%s]"
+                             % (j, a_shared[:150], a_fresh[:150], text[:200]), dict(rep, reused=a_shared, fresh=a_fresh))
+                continue
+            if res[0] == "err":
+                ctx.report_s({"oracle": "accept", "kind": "generated", "error": res[1], "stream": "parser-reuse"},
+                             "a legal script is rejected: %s %s" % (res[1], res[2]), dict(rep, error="%s: %s" % (res[1], res[2])))
+                continue
+            if j == k - 1 and i % 3 == 0:
+                K_TEXTS.append(("parser-reuse", text))
+            pairs = []
+            for ci, b in want:
+                w = b(env.formula_manager)
+                got = res[1].commands[ci].args[0]
+                what = "assert#%d" % ci
+                pairs.append((what, got))
+                if got is not w:
+                    ctx.report_s({"oracle": "intended-object", "stream": "parser-reuse"},
+                                 "script %d of a sequence read by one parser object: %s is read as %s, the text means %s (numerals "
+                                 "have the sort the script's own logic gives them)" % (j, what, semantic.readable(got), semantic.readable(w)),
+                                 dict(rep, command=what, intended=semantic.readable(w), returned=semantic.readable(got)))
+                    continue
+                ctx.count("parser_reuse_identical")
+            if j == k - 1:
+                STD_QUEUE.append((text, pairs, rep, ig))
+
+
+# (2) a quantified name that is CURRENTLY an alias of a plain symbol of the same sort (a let variable bound to a symbol, a 0-ary
+#     definition whose body is a symbol, a formal parameter of the enclosing definition) and that symbol occurs free in the
+#     matrix: the binder binds a variable called as written, not the aliased symbol
+def alias_quantifier_case(rng):
+    """-> (text, command index, build(m))"""
+    from pysmt.typing import INT, REAL
+    ty, tn = rng.choice([(INT, "Int"), (INT, "Int"), (REAL, "Real")])
+    v, y = rng.sample(["x", "y", "z", "k", "u"], 2)
+    q = rng.choice(["forall", "exists"])
+    rel, mk = rng.choice([(">=", "GE"), ("<", "LT"), ("=", "Equals"), (">", "GT"), ("distinct", "NotEquals")])
+    swap = rng.random() < 0.4
+    matrix = "(%s %s %s)" % ((rel, y, v) if swap else (rel, v, y))
+    kind = rng.randrange(4)
+
+    def build(m):
+        bv, fy = m.Symbol(v, ty), m.Symbol(y, ty)
+        body = getattr(m, mk)(fy, bv) if swap else getattr(m, mk)(bv, fy)
+        return (m.ForAll if q == "forall" else m.Exists)([bv], body)
+    decl = "(declare-fun %s () %s)" % (y, tn)
+    if kind == 0:
+        return decl + "(assert (let ((%s %s)) (%s ((%s %s)) %s)))" % (v, y, q, v, tn, matrix), 1, build
+    if kind == 1:
+        return decl + "(define-fun %s () %s %s)(assert (%s ((%s %s)) %s))" % (v, tn, y, q, v, tn, matrix), 2, build
+    if kind == 2:
+        return decl + "(define-fun f ((%s %s)) Bool (%s ((%s %s)) %s))(assert (f %s))" % (v, tn, q, v, tn, matrix, y), 2, build
+    w = "w"
+    return decl + "(assert (let ((%s %s)) (let ((%s %s)) (%s ((%s %s)) (and %s (= %s %s))))))" % (
+        w, y, v, w, q, v, tn, matrix, w, y), 1, \
+        (lambda m: (m.ForAll if q == "forall" else m.Exists)(
+            [m.Symbol(v, ty)], m.And((lambda bv, fy: getattr(m, mk)(fy, bv) if swap else getattr(m, mk)(bv, fy))(m.Symbol(v, ty), m.Symbol(y, ty)),
+                                     m.Equals(m.Symbol(y, ty), m.Symbol(y, ty)))))
+
+
+def run_alias_quantifiers(ctx, ig, lines, meta, n):
+    for i in range(n):
+        text, ci, build = alias_quantifier_case(ctx.rng)
+        ctx.case(("alias-quantifier", text))
+        ctx.count("alias_quantifier_cases")
+        if i % 2 == 0:
+            K_TEXTS.append(("alias-quantifier", text))
+        res = run_impl(text)
+        rep = {"text": text, "stream": "alias-quantifier", "tags": ["alias-quantifier"], "may_reject": []}
+        if res[0] == "err":
+            ctx.report_s({"oracle": "accept", "kind": "generated", "error": res[1], "stream": "alias-quantifier"},
+                         "a legal script (a binder re-using a name that is an alias of a symbol) is rejected: %s %s" % (res[1], res[2]),
+                         dict(rep, error="%s: %s" % (res[1], res[2])))
+            continue
+        want = build(Environment().formula_manager)
+        got = res[1].commands[ci].args[0]
+        what = "assert#%d" % ci
+        STD_QUEUE.append((text, [(what, got)], rep, ig))
+        try:
+            lines.append(semantic.chk_equiv_line(want, got, ig.sample([want, got], n=8), check_fv=True))
+            meta.append(({"oracle": "meaning", "stream": "alias-quantifier", "command": "assert"},
+                         dict(rep, command=what, intended=semantic.readable(want), returned=semantic.readable(got))))
+        except wire.OutOfFragment:
+            ctx.count("out_of_fragment")
+
+
 def run_repaired_shapes(ctx):
     for fid, text, must_reject, names, kind in REPAIRED_SHAPES:
         K_TEXTS.append(("repaired-" + kind, text))
@@ -3541,6 +3714,9 @@ def run(ctx):
     run_numeral_division(ctx, ig, lines, meta, 90 if quick else 1200)
     run_fresh_names(ctx, ig, lines, meta, 60 if quick else 800)
     mark("numerals-and-names")
+    run_parser_reuse(ctx, ig, lines, meta, 80 if quick else 1000)
+    run_alias_quantifiers(ctx, ig, lines, meta, 80 if quick else 1000)
+    mark("reuse-and-aliases")
     # (when building the Lean side has used up the budget -- the sources changed -- a reduced number of cases of each dedicated
     #  stream is still run: a few seconds in all)
     short = ctx.time_left() < (60 if quick else 400)
@@ -3732,6 +3908,18 @@ def replay(ctx, rep):
             if a[0] != b[0] or norm(sa) != norm(sb):
                 ctx.report_s(sig, rep["what"], r)
                 return
+        return
+    if r.get("stream") == "parser-reuse" and "scripts" in r:
+        bad = False
+        for (j, a_shared, a_fresh, res, env) in _reuse_compare(r["scripts"]):
+            print("script %d: %s\n  one parser object: %s\n  fresh parser     : %s" % (j, r["scripts"][j], a_shared[:300], a_fresh[:300]))
+            if j == r["index"] and res[0] == "ok" and "command" in r:
+                got = _term_of(res[1], r["command"])
+                print("  %s read as %s; intended %s" % (r["command"], semantic.readable(got), r.get("intended")))
+                bad = bad or semantic.readable(got) != r.get("intended")
+            bad = bad or a_shared != a_fresh
+        if bad:
+            ctx.report_s(sig, rep["what"], r)
         return
     if r.get("stream") == "formula-routes" and "route" in r:
         print("text:\n" + r["text"], "\nroute:", r["route"], "\nassertions in force at the end:", r.get("live"))
